@@ -20,6 +20,7 @@ import torch
 from vlib import cb, cl, cn, co, cp, cq, cz, coq_eval_bools, coq_eval_print, exc_kind, load_corpus, shrink
 
 warnings.filterwarnings("ignore")
+torch.set_num_threads(1)
 
 IMPORTS = "From PV Require Import C18.Model C18.Spec.\n"
 DT = {"f32": torch.float32, "f64": torch.float64}
@@ -56,8 +57,13 @@ def lit_tensor_fr(shape, fracs):
     return f"(mkT {cl([cn(s) for s in shape])} {cl([cq(f) for f in fracs])})"
 
 
-def lit_case_tensor(t, scale):
-    return lit_tensor_fr(t["shape"], [Fraction(i, scale) for i in t["data"]])
+def lit_case_tensor(t, scale, dtype=None):
+    """exact value of what the implementation receives: ints/scale is exact for the dyadic scales; off the grid
+    (scale 10) it is the float of the given dtype nearest to int/scale"""
+    if scale in (1, 2, 4, 8):
+        return lit_tensor_fr(t["shape"], [Fraction(i, scale) for i in t["data"]])
+    vals = torch.tensor([i / scale for i in t["data"]], dtype=dtype or torch.float64).double().tolist()
+    return lit_tensor_fr(t["shape"], [Fraction(v) for v in vals])
 
 
 def fr_list(xs):
@@ -147,7 +153,7 @@ def lit_ops(case):
     items = []
     for op in case["ops"]:
         if op["op"] == "acc":
-            items.append(f"OpAcc {lit_case_tensor(op['x'], case['scale'])}")
+            items.append(f"OpAcc {lit_case_tensor(op['x'], case['scale'], DT[case['dtype']])}")
         else:
             items.append(f"OpStore {cb(op['delete'])} {cb(op['bessel'])}")
     return cl(items)
@@ -180,7 +186,8 @@ def ops_term(case, out):
         return "false"
     if out["final"][0] == "err" and lit_err(out["final"][1]) is None:
         return "false"
-    tol = cq(TOL64)
+    loose = case.get("offgrid") and case["dtype"] == "f32"   # float32 sums of off-grid data carry ~1e-8 of rounding
+    tol = cq(Fraction(1, 10**5) if loose else TOL64)
     stores = cl([_lit_store(s) for s in out["stores"]])
     if out["final"][0] == "err":
         final = lit_err(out["final"][1])
@@ -189,7 +196,8 @@ def ops_term(case, out):
     else:
         c, sm, sq = out["final"][1]
         final = f"(Ok (Some ({cq(Fraction(c))}, {lit_qs(fr_list(sm))}, {lit_qs(fr_list(sq))})))"
-    parts = [f"check_ops {cz(case['dim'])} {lit_ops(case)} {tol} {stores} {final}"]
+    tola = cq((Fraction(1, 10**5) if loose else TOL64) if case.get("offgrid") else Fraction(0))
+    parts = [f"check_ops {cz(case['dim'])} {lit_ops(case)} {tol} {tola} {stores} {final}"]
     if out["fwd"] is not None:
         last = [s for s in out["stores"] if s[0] == "ok"][-1]
         ftol = cq(_fwd_tol(case, out))
@@ -198,7 +206,7 @@ def ops_term(case, out):
             if f[0] == "err" and lit_err(f[1]) is None:
                 return "false"
             parts.append(
-                f"check_norm {lit_case_tensor(op['x'], case['scale'])} {cz(case['dim'])} (Some {lit_qs(fr_list(last[1]))}) "
+                f"check_norm {lit_case_tensor(op['x'], case['scale'], DT[case['dtype']])} {cz(case['dim'])} (Some {lit_qs(fr_list(last[1]))}) "
                 f"(Some {lit_qs(fr_list(last[2]))}) {cq(Fraction(case['eps']))} [] {ftol} {lit_res_tensor(f)}")
     return "(" + " && ".join(parts) + ")"
 
@@ -246,7 +254,7 @@ def ops_spec_term(case, out):
         return "true" if not last and seen is None else "false"
     if not (finite(last[-1][1]) and finite(last[-1][2])):
         return "false"
-    xs = cl([lit_case_tensor(x, case["scale"]) for x in seen[0]])
+    xs = cl([lit_case_tensor(x, case["scale"], DT[case["dtype"]]) for x in seen[0]])
     return (f"spec_stats_okb {cz(case['dim'])} {xs} {cb(seen[1])} {cq(TOL64)} "
             f"{lit_qs(fr_list(last[-1][1]))} {lit_qs(fr_list(last[-1][2]))}")
 
@@ -287,7 +295,13 @@ def ops_metamorphic(case, out, rng_seed):
     bessel = ops[-1]["bessel"]
     m2.store(bessel=bessel)
     st = out["stores"][-1]
-    if [float(v) for v in m2.mean.tolist()] != st[1] or [float(v) for v in m2.std.tolist()] != st[2]:
+    if case.get("offgrid"):
+        t = 1e-5 if case["dtype"] == "f32" else 1e-9
+        same = (all(abs(a - b) <= t for a, b in zip(m2.mean.tolist(), st[1])) and
+                all(abs(a * a - b * b) <= t for a, b in zip(m2.std.tolist(), st[2])) and finite(m2.std.tolist()))
+    else:
+        same = [float(v) for v in m2.mean.tolist()] == st[1] and [float(v) for v in m2.std.tolist()] == st[2]
+    if not same:
         return {"what": "statistics depend on how the pooled frames were partitioned/ordered",
                 "repartition": {"mean": m2.mean.tolist(), "std": m2.std.tolist()}, "original": {"mean": st[1], "std": st[2]}}
     if not (finite(st[1]) and finite(st[2])):
@@ -534,7 +548,8 @@ def run_cmd(case, workdir):
             torch.save(mk(f["x"], case["scale"], DT[case["dtype"]]), os.path.join(d, "feat", "u%03d.pt" % f["id"]))
         for name in case.get("junk", []):
             open(os.path.join(d, "feat", name), "w").write("not a feature file")
-        args = [os.path.join(d, "feat"), os.path.join(d, "out.pt"), "--dim", str(case["dim"])]
+        args = [os.path.join(d, "feat"), os.path.join(d, "out.pt"), "--dim", str(case["dim"]),
+                "--num-workers", str(case.get("num_workers", 0))]
         if case["bessel"]:
             args.append("--bessel")
         if case["id2gid"] is not None:
@@ -711,6 +726,26 @@ def gen_ops_random(rng, malformed=False):
                 eps=rng.choice([TINY, 1e-5, 0.5, 3.0]), ops=ops, stream="malformed" if malformed else "random")
 
 
+def gen_ops_offgrid(rng):
+    """regime N: data OFF the dyadic grid (tenths) with a coefficient that is constant over the pooled frames; the float
+    variance sumsq/n - mean^2 then rounds to about -1e-18 and an unclamped sqrt gives NaN"""
+    X = rng.choice([1, 2, 3])
+    const = rng.randrange(X)
+    cval = rng.choice([1, 2, 3, 7, 11, 13, 23, 47, -3, -9])
+    ops = []
+    for _ in range(rng.choice([1, 2, 3])):
+        n = rng.choice([1, 2, 3, 5, 7])
+        data = []
+        for _ in range(n):
+            data += [cval if j == const else rng.randint(-30, 30) for j in range(X)]
+        ops.append({"op": "acc", "x": {"shape": [n, X], "data": data}})
+    if sum(o["x"]["shape"][0] for o in ops) < 2:
+        ops.append(dict(ops[0]))
+    ops.append({"op": "store", "delete": rng.random() < 0.5, "bessel": rng.random() < 0.5})
+    return dict(kind="ops", dim=-1, scale=10, dtype="f64", eps=rng.choice([TINY, 1e-5, 0.5]), offgrid=True, ops=ops,
+                stream="offgrid")
+
+
 def gen_norm_random(rng, malformed=False):
     D = rng.randint(1, 4)
     shape = [rng.choice([1, 2, 2, 3, 4]) for _ in range(D)]
@@ -863,7 +898,7 @@ def gen_return_long(rng, thorough):
             cases.append(dict(kind="return", r=rand_tensor(rng, shape, -3, 3), scale=1, gamma=g, bf=bf, exact=False,
                               python_only=True, via="function", stream="long-horizon"))
     # mid-size horizons that the model still evaluates
-    for g, T in [([1, 2], 160), ([3, 1], 60), (0.9, 40)]:
+    for g, T in [([1, 2], 80), ([3, 1], 60), (0.9, 40)]:
         cases.append(dict(kind="return", r=rand_tensor(rng, [T, 1], -3, 3), scale=1, gamma=g, bf=False,
                           exact=False, via="function", stream="long-horizon"))
     return cases
@@ -905,6 +940,7 @@ def gen_cmd_random(rng, malformed=False):
             dim = 5
     return dict(kind="cmd", files=files, id2gid=id2gid, dim=dim, bessel=rng.random() < 0.5, scale=rng.choice([1, 4]),
                 dtype=rng.choice(["f32", "f64"]), junk=["README.txt"] if rng.random() < 0.3 else [],
+                num_workers=2 if rng.random() < 0.08 else 0,
                 blank_lines=rng.random() < 0.3, stream="malformed" if malformed else "random")
 
 
@@ -931,6 +967,8 @@ def gen_cases(chk):
         cases.append(gen_ops_random(rng))
     for _ in range(30 * mult):
         cases.append(gen_ops_random(rng, malformed=True))
+    for _ in range(40 * mult):
+        cases.append(gen_ops_offgrid(rng))
     for _ in range(110 * mult):
         cases.append(gen_norm_random(rng))
     for _ in range(25 * mult):
@@ -1076,7 +1114,7 @@ def run(chk, cases=None):
             mm = {"what": "a relation stated by the property could not be evaluated on the implementation: " + repr(e)}
         if mm:
             recs.append((idx, mm))
-    res = coq_eval_bools(chk.workdir, IMPORTS, terms)
+    res = coq_eval_bools(chk.workdir, IMPORTS, terms, shard=60)
     bad = [i for i, ok in enumerate(res) if not ok]
     chk.extra["model_disagreements"] = len(bad)
     chk.extra["relation_failures"] = len(recs)
